@@ -125,8 +125,8 @@ def mutants(args):
                         bad += 1
                         print(p.stderr[-800:])
                     continue
-                print(f"[mutant] {m['_name']}: {prop} exit {p.returncode} (want {want}) {'OK' if ok else 'MISSED' if want else 'FALSE-ALARM'} {first[0].strip()[:160] if first else ''}")
-                if not ok:
+                print(f"[mutant] {m['_name']}: {prop} exit {p.returncode} (want {want}) {'OK' if ok else 'MISSED' if want else 'FALSE-ALARM'} {first[0].strip()[:160] if first else ''}" + (f" [documented blind spot: {m['blind_spot'][:120]}]" if not ok and want and m.get("blind_spot") and p.returncode == 0 else ""))
+                if not ok and not (want and m.get("blind_spot") and p.returncode == 0):
                     bad += 1
                     if p.returncode == 2:
                         print(p.stderr[-800:])
